@@ -41,7 +41,9 @@ rc, out = sh(["git", "apply", os.path.join(SRC, "patch.diff")]); ok &= step("git
 rc, out = sh(["cargo", "build", "--workspace", "--offline"]); ok &= step("cargo build --workspace with patch", rc, out, True)
 rc, out = sh(demo_cmd); ok &= step("demo with patch (must fail)", rc, out, False)
 os.remove(demo_dst)
-rc, out = sh(["cargo", "test", "--workspace", "--offline", "--no-fail-fast"])
+iso = "/tmp/mut/run_isolated.sh"
+suite_cmd = ([iso, prop] if os.path.exists(iso) else []) + ["cargo", "test", "--workspace", "--offline", "--no-fail-fast"]
+rc, out = sh(suite_cmd)
 failed = sorted(set(re.findall(r"^test (\S+) \.\.\. FAILED", out, flags=re.M)))
 passed = len(re.findall(r"^test \S+ \.\.\. ok", out, flags=re.M))
 log["suite_with_patch"] = {"exit": rc, "passed": passed, "failed": failed}
